@@ -230,6 +230,24 @@ def put_rules(chk):
     Read off the syntax with every single-assignment local inlined, so the names of the loop variables and temporaries do not matter."""
     P = chk.P
     fi = P.fn(TS + "put_array_in_2d_array")
+    # the larger / smaller of a number and 0 has several exact spellings (np.max([x, 0]), np.maximum(x, 0), max(x, 0); x.max() for np.max(x)):
+    # they are read as the pinned spelling, so that the extras are compared by what they are
+    import copy as _copy
+
+    class _MinMax(ast.NodeTransformer):
+        def visit_Call(self, n):
+            self.generic_visit(n)
+            f = ast.unparse(n.func)
+            if isinstance(n.func, ast.Attribute) and n.func.attr in ("max", "min") and not n.args and not n.keywords and f not in ("np.max", "np.min"):
+                return ast.copy_location(ast.Call(func=ast.parse("np." + n.func.attr, mode="eval").body, args=[n.func.value], keywords=[]), n)
+            if f in ("np.maximum", "numpy.maximum", "max", "np.minimum", "numpy.minimum", "min") and len(n.args) == 2 and not n.keywords and \
+                    isinstance(n.args[1], ast.Constant) and n.args[1].value == 0 and not isinstance(n.args[1].value, bool):
+                which = "np.max" if "max" in f else "np.min"
+                return ast.copy_location(ast.Call(func=ast.parse(which, mode="eval").body, args=[ast.List(elts=[n.args[0], n.args[1]], ctx=ast.Load())],
+                                                  keywords=[]), n)
+            return n
+    _root = ast.fix_missing_locations(_MinMax().visit(_copy.deepcopy(fi.node)))
+    fi = type("View", (), {"node": _root, "loc": fi.loc, "params": fi.params})()
     c = "eqsig/fns/time_shift.py:put_array_in_2d_array"
     chk.rule("R-PUT", "put_array_in_2d_array: extras from min / max of the shifts against 0, zeros buffer of npts + both extras columns, row i "
                       "stored at [start_extras + shift_i : start_extras + shift_i + npts], clip 'end'/'both' drops the end extras (when > 0), "
